@@ -877,7 +877,7 @@ int parse_instruction_cell(AsmContext *asm_context, char *instr)
 
           offset = operands[0].value - asm_context->address;
 
-          if (offset < -(1 << 17) || offset >= (1 << 17))
+          if (offset < -(1 << 10) || offset >= (1 << 10))
           {
             print_error_range(asm_context, "Offset", -(1 << 10), (1 << 10) - 1);
             return -1;
@@ -924,7 +924,7 @@ int parse_instruction_cell(AsmContext *asm_context, char *instr)
 
           offset = operands[0].value - asm_context->address;
 
-          if (offset < -(1 << 17) || offset >= (1 << 17))
+          if (offset < -(1 << 10) || offset >= (1 << 10))
           {
             print_error_range(asm_context, "Offset", -(1 << 10), (1 << 10) - 1);
             return -1;
